@@ -9,7 +9,7 @@ for f in sys.argv[1:]:
 sys.path.insert(0, '/verif/mutants'); import defs
 notes = {m[0]: m[5] for m in defs.M}
 seed = ["| change | property | what it needs to manifest | quick check result | first signature |", "|---|---|---|---|---|"]
-LIMITS = {'C17b-r8', 'C20b-r8'}
+LIMITS = {'C17b-r8'}
 for d in sorted(os.listdir('/verif/seeded')):
     if not os.path.isdir(f'/verif/seeded/{d}'): continue
     meta = json.load(open(f'/verif/seeded/{d}/meta.json'))
